@@ -75,22 +75,22 @@ func (fs *FS) wrapRelPathErr(err error) error {
 		separator = string(filepath.Separator)
 		slash     = "/"
 	)
+	relPath := func(p string) string {
+		p = strings.TrimPrefix(p, rootedPath)
+		p = strings.ReplaceAll(p, separator, slash)
+		p = strings.TrimPrefix(p, slash)
+		if p == "" {
+			p = "." // the root itself
+		}
+		return p
+	}
 	switch e := err.(type) {
 	case *hackpadfs.PathError:
 		errCopy := *e
-		errCopy.Path = strings.TrimPrefix(errCopy.Path, rootedPath)
-		errCopy.Path = strings.ReplaceAll(errCopy.Path, separator, slash)
-		errCopy.Path = strings.TrimPrefix(errCopy.Path, slash)
+		errCopy.Path = relPath(errCopy.Path)
 		err = &errCopy
 	case *os.LinkError:
-		errCopy := &hackpadfs.LinkError{Op: e.Op, Old: e.Old, New: e.New, Err: e.Err}
-		errCopy.Old = strings.TrimPrefix(errCopy.Old, rootedPath)
-		errCopy.Old = strings.ReplaceAll(errCopy.Old, separator, slash)
-		errCopy.Old = strings.TrimPrefix(errCopy.Old, slash)
-		errCopy.New = strings.TrimPrefix(errCopy.New, rootedPath)
-		errCopy.New = strings.ReplaceAll(errCopy.New, separator, slash)
-		errCopy.New = strings.TrimPrefix(errCopy.New, slash)
-		err = errCopy
+		err = &hackpadfs.LinkError{Op: e.Op, Old: relPath(e.Old), New: relPath(e.New), Err: e.Err}
 	}
 	return err
 }
